@@ -316,7 +316,7 @@ GOODNUMS = [b"", b"\x01", b"\x02", b"\x03", b"\x05", b"\x10", b"\x11", b"\x7f", 
 
 def rnd_num(rng):
     r = rng.random()
-    if r < 0.6:
+    if r < (0.9 if GEN["flags"] & F.VERIFY_MINIMALDATA else 0.6):
         return rng.choice(GOODNUMS)
     if r < 0.8:
         return rng.choice(NUMS)
@@ -327,8 +327,12 @@ def rnd_num(rng):
     return bytes(b)
 
 
+GEN = {"flags": 0, "clean": False}      # the flag set the script being generated will run under (makes most scripts polite to it)
+
+
 def rnd_push(rng, d):
-    return push(d) if rng.random() < 0.8 else push_as(d, rng.choice([1, 2, 3, 4]))
+    p = 0.97 if GEN["flags"] & F.VERIFY_MINIMALDATA else 0.8
+    return push(d) if rng.random() < p else push_as(d, rng.choice([1, 2, 3, 4]))
 
 
 # phrases: (script bytes, minimum depth needed before, net depth change)
@@ -377,7 +381,8 @@ def phrase(rng, depth, altdepth):
     if r < 0.81:
         return rnd_push(rng, rng.choice([b"", b"\x01", b"\x0a", b"\x00\x00\x40", b"\xff\xff\xff\xff\x00"])) + \
             o(rng.choice(["CHECKLOCKTIMEVERIFY", "CHECKSEQUENCEVERIFY"]), "DROP"), depth, altdepth
-    cands = [s for s in STACKOPS if s[1] <= depth] or [STACKOPS[0]]
+    cands = [s for s in STACKOPS if s[1] <= depth and not (s[0].startswith("NOP") and len(s[0]) > 3 and
+                                                          GEN["flags"] & F.VERIFY_DISCOURAGE_UPGRADABLE_NOPS and rng.random() < 0.9)]
     name, need, d = rng.choice(cands)
     return o(name), depth + d, altdepth
 
@@ -386,7 +391,8 @@ def body(rng, depth, altdepth, n, nest=0):
     parts = []
     for _ in range(n):
         if nest < 4 and rng.random() < 0.15:
-            cond = rnd_push(rng, rng.choice([b"\x01", b"", b"\x00", b"\x80", b"\x02", b"\x01\x00", b"\x00\x80", b"\x81"]))
+            cond = rnd_push(rng, rng.choice([b"\x01", b"", b"\x00", b"\x80", b"\x02", b"\x01\x00", b"\x00\x80", b"\x81"])
+                            if rng.random() < (0.08 if GEN["flags"] & F.VERIFY_MINIMALIF else 0.6) else rng.choice([b"", b"\x01"]))
             opn = rng.choice(["IF", "NOTIF"])
             b1, d1, a1 = body(rng, depth, altdepth, rng.randint(0, 4), nest + 1)
             s = cond + o(opn) + b1
@@ -541,13 +547,15 @@ HASHTYPES = [1] * 8 + [2, 3, 0x81, 0x82, 0x83, 0, 4, 0x80, 0x84, 0x41, 0xff, 0x2
 
 
 def rnd_sig(rng, cb, sv, code, k):
+    if GEN["clean"]:
+        return make_sig(cb, sv, code, k, rng.choice([1, 1, 1, 2, 3, 0x81, 0x82, 0x83]), "ok")
     if rng.random() < 0.08:
         return rng.choice(GARBAGE_SIGS)
     return make_sig(cb, sv, code, k, rng.choice(HASHTYPES), rng.choice(SIG_VARIANTS))
 
 
 def rnd_key(rng, k):
-    r = rng.random()
+    r = rng.random() * (0.6 if GEN["clean"] else 1.0)
     if r < 0.6:
         return sec(k, "c")
     if r < 0.8:
@@ -820,19 +828,23 @@ def cond_cases(rng, tier):
 
 
 def grammar_cases(rng, tier):
-    n = 2600 if tier == "quick" else 150000
+    n = 6000 if tier == "quick" else 300000
     fc = FlagCycle(rng, SUB_VM)
     for _ in range(n):
+        GEN["flags"] = fl = fc.next()
         s, init = gen_script(rng)
-        yield c_eval(fc.next(), rng.choice("BBBW"), rng.choice(CTXS), s, init, tag="grammar")
+        GEN["flags"] = 0
+        yield c_eval(fl, rng.choice("BBBW"), rng.choice(CTXS), s, init, tag="grammar")
 
 
 def sig_eval_cases(rng, tier):
-    n = 900 if tier == "quick" else 40000
+    n = 1500 if tier == "quick" else 60000
     fc = FlagCycle(rng, SUB_SIG)
     for _ in range(n):
         sv = rng.choice("BBW")
+        GEN["clean"] = rng.random() < 0.3
         cb, script, stack = sig_script_case(rng, sv)
+        GEN["clean"] = False
         fl = fc.next()
         yield c_eval(fl, sv, cb, script, stack, tag="sig")
         if rng.random() < 0.3:
@@ -965,7 +977,7 @@ def spend_case(rng):
 
 
 def malleate(rng, cb, ssig, spk, wit):
-    r = rng.random()
+    r = 0.0 if GEN["clean"] else rng.random()
     if r < 0.55:
         return cb, ssig, spk, wit
     if r < 0.62:
@@ -1002,13 +1014,15 @@ def malleate(rng, cb, ssig, spk, wit):
 
 
 def verify_cases(rng, tier):
-    n = 1500 if tier == "quick" else 60000
+    n = 2500 if tier == "quick" else 100000
     fc = FlagCycle(rng, SUB_SPEND)
     std = (F.VERIFY_P2SH | F.VERIFY_WITNESS | F.VERIFY_STRICTENC | F.VERIFY_DERSIG | F.VERIFY_LOW_S | F.VERIFY_NULLDUMMY |
            F.VERIFY_MINIMALDATA | F.VERIFY_CLEANSTACK | F.VERIFY_CHECKLOCKTIMEVERIFY | F.VERIFY_CHECKSEQUENCEVERIFY |
            F.VERIFY_MINIMALIF | F.VERIFY_NULLFAIL | F.VERIFY_WITNESS_PUBKEYTYPE)
     for _ in range(n):
+        GEN["clean"] = rng.random() < 0.4
         cb, ssig, spk, wit = malleate(rng, *spend_case(rng))
+        GEN["clean"] = False
         q = rng.random()
         fl = fc.next() if q < 0.5 else (std if q < 0.7 else (std ^ rng.choice(ALL_FLAGS)) if q < 0.85 else
                                         (F.VERIFY_P2SH | F.VERIFY_WITNESS | rng.getrandbits(16)))
